@@ -374,7 +374,8 @@ class MinMaxAggregator:
         body.extend(lits_without_vars)
         ret.append(rule.update(body=body))
         if rule.ast_type == ASTType.Rule:
-            self._store_aggregate_head(agg.atom.function, rule.head, rest_vars, max_var, new_name)
+            if len(body) == 1:  # with further bounds or literals the head holds less often than the result atom
+                self._store_aggregate_head(agg.atom.function, rule.head, rest_vars, max_var, new_name)
         else:
             self._store_aggregate_for_minimize(agg.atom.function, rest_vars, max_var, new_name)
         return ret
